@@ -1,6 +1,8 @@
 package simtest
 
 import (
+	"encoding/json"
+	"os"
 	"fmt"
 	"testing"
 
@@ -34,4 +36,67 @@ func one(t *testing.T, s sim.Scenario) {
 func TestSmokeCloneSet(t *testing.T) {
 	one(t, sim.Scenario{Workload: "cloneset", Style: "partition", Replicas: 5, Namespace: "ns1", Name: "demo",
 		Steps: []sim.StepSpec{{Replicas: "20%"}, {Replicas: "60%"}, {Replicas: "100%"}}})
+}
+
+func TestSmokeDeploymentCanary(t *testing.T) {
+	one(t, sim.Scenario{Workload: "deployment", Style: "canary", Replicas: 5, Namespace: "ns1", Name: "demo",
+		Steps: []sim.StepSpec{{Replicas: "1"}, {Replicas: "60%"}, {Replicas: "100%"}}})
+}
+
+func ip(i int) *int { return &i }
+
+func TestSmokeCloneSetIngress(t *testing.T) {
+	one(t, sim.Scenario{Workload: "cloneset", Style: "partition", Replicas: 5, Namespace: "ns1", Name: "demo", Provider: "ingress-nginx",
+		Steps: []sim.StepSpec{{Replicas: "20%", Traffic: ip(20)}, {Replicas: "40%", Match: "header"}, {Replicas: "100%"}}})
+}
+
+func TestSmokeDeploymentGateway(t *testing.T) {
+	one(t, sim.Scenario{Workload: "deployment", Style: "canary", Replicas: 4, Namespace: "ns1", Name: "demo", Provider: "gateway",
+		Steps: []sim.StepSpec{{Replicas: "1", Traffic: ip(10)}, {Replicas: "50%", Traffic: ip(50)}, {Replicas: "100%", Traffic: ip(100)}}})
+}
+
+func TestDebugReplay(t *testing.T) {
+	path := os.Getenv("DEBUG_REPLAY")
+	if path == "" {
+		t.Skip()
+	}
+	data, _ := os.ReadFile(path)
+	var rf struct {
+		Case struct {
+			S sim.Scenario `json:"scenario"`
+			H []sim.Action `json:"history"`
+		} `json:"case"`
+	}
+	if err := json.Unmarshal(data, &rf); err != nil {
+		t.Fatal(err)
+	}
+	r, _ := sim.NewRun(rf.Case.S)
+	r.W.KeepWrites = true
+	if err := r.W.Build(rf.Case.S); err != nil {
+		t.Fatal(err)
+	}
+	for _, a := range rf.Case.H {
+		r.Apply(a)
+	}
+	budget := 300
+	if b := os.Getenv("DEBUG_BUDGET"); b != "" {
+		fmt.Sscanf(b, "%d", &budget)
+	}
+	out := r.Complete(budget)
+	fmt.Printf("outcome: %+v\n", out)
+	for _, wr := range r.W.Writes {
+		if wr.Actor != sim.ActorEnv || os.Getenv("DEBUG_ENV") != "" {
+			fmt.Println("  ", wr, sim.Brief(wr))
+		}
+	}
+	fmt.Println("user log:", r.UserLog)
+	fmt.Println("pending:", r.W.Pending())
+	fmt.Println("reconcile log tail:")
+	n := len(r.W.ReconcileLog)
+	for i := n - 12; i < n; i++ {
+		if i >= 0 {
+			fmt.Println("  ", r.W.ReconcileLog[i])
+		}
+	}
+	fmt.Println(sim.DumpState(r))
 }
